@@ -623,28 +623,38 @@ func TestVerifC07Small(t *testing.T) {
 		cost   int
 	}
 	var jobs []job
+	// estimated transitions per job, measured once on the unchanged tree (only used to balance the shards)
+	est := func(twoWay, queued bool, kind string, node int) int {
+		switch {
+		case twoWay && !queued:
+			return map[string]int{"drop": 11800, "dup": 17500, "lexpire": 4300}[kind]
+		case twoWay:
+			return map[string]int{"drop": 6500, "dup": 7200, "lexpire": 2400}[kind]
+		case !queued:
+			return map[string]int{"drop": 1440, "dup": 1810 + 570*node, "lexpire": 720}[kind]
+		}
+		return map[string]int{"drop": 1040 - 200*node, "dup": 1190 + 180*node, "lexpire": 540 - 120*node}[kind]
+	}
 	for i, p := range pairs {
 		bud := budgetFor(p)
-		base := 50 // ~5 000 transitions with one fault
+		twoWay := p.A&^p.B != 0 && p.B&^p.A != 0
 		switch {
 		case p.A == p.B:
-			base = 1
-		case p.A&^p.B != 0 && p.B&^p.A != 0:
-			base = 700
-		}
-		if p.Queued {
-			base = base * 7 / 10
-		}
-		switch {
-		case bud == 0 || p.A == p.B:
-			jobs = append(jobs, job{pair: i, budget: bud, cost: base/25 + 1})
-		default:
-			if bud == 2 {
-				base *= 25
+			jobs = append(jobs, job{pair: i, budget: bud, cost: 50})
+		case bud == 0:
+			c := 200
+			if twoWay {
+				c = 1170
 			}
+			jobs = append(jobs, job{pair: i, budget: bud, cost: c})
+		default:
 			for _, k := range []string{"drop", "dup", "lexpire"} {
 				for n := 0; n < 2; n++ {
-					jobs = append(jobs, job{pair: i, first: fmt.Sprintf("%s@%d", k, n), budget: bud, cost: base/6 + base/20 + 1})
+					c := est(twoWay, p.Queued, k, n)
+					if bud == 2 {
+						c *= 25
+					}
+					jobs = append(jobs, job{pair: i, first: fmt.Sprintf("%s@%d", k, n), budget: bud, cost: c})
 				}
 			}
 		}
